@@ -119,6 +119,7 @@ type txCase struct {
 	MinSig       bool    `json:"minsig,omitempty"`       //
 	TxFn         bool    `json:"txfn,omitempty"`         // -txfn out.txt
 	NoApply      bool    `json:"noapply,omitempty"`      // -a=false
+	Second       bool    `json:"second,omitempty"`       // after a written transaction: a second payment (-useallinputs) from the balance folder the wallet updated
 	SignKey      *int    `json:"signkey,omitempty"`      // -sign <P2PKH address of this key> (signs -msg; main() then builds the wallet a second time)
 
 	RawVer  uint32  `json:"rawver,omitempty"`
@@ -501,6 +502,7 @@ func checkMessageSignature(stdout, msg string, pub []byte) error {
 }
 
 type caseInfo struct {
+	second    bool // a second payment from the updated balance folder was made and checked
 	msgSigned bool
 	outcome   string // written | refused_insufficient | refused_other | raw_written
 	inTypes   map[string]bool
@@ -1048,6 +1050,108 @@ func checkCase(c txCase) (info caseInfo, err error) {
 			return info, fmt.Errorf("input %d: %v\n%s", i, e, describeTx(got))
 		}
 	}
+	if !c.Second || c.NoApply {
+		return info, nil
+	}
+
+	// --- a second payment from the balance folder the wallet has just updated -------------------------------
+	// what it may spend now: the listed outputs the first transaction left alone plus the first transaction's
+	// outputs to the wallet's own scripts; -useallinputs asks for all of them
+	base58Mode := c.W.AType == "p2kh" || c.W.AType == "segwit"
+	avail := map[outpoint]wire.TxOut{}
+	sure2 := map[outpoint]bool{}
+	var sum2 uint64
+	for op, u := range listedOuts {
+		o := c.Fund[u[0]].Outs[u[1]]
+		if seen[op] || !owned(o.Kind) {
+			continue
+		}
+		avail[op] = fund[u[0]].Out[u[1]]
+		if o.Kind != "p2sh" || base58Mode {
+			sure2[op] = true
+			sum2 += o.Value
+		}
+	}
+	id1 := got.TxID()
+	for i, o := range got.Out {
+		if !own[string(o.PkScript)] {
+			continue
+		}
+		op := outpoint{id1, uint32(i)}
+		avail[op] = o
+		if !(len(o.PkScript) == 23 && o.PkScript[0] == 0xa9) || base58Mode {
+			sure2[op] = true
+			sum2 += o.Value
+		}
+	}
+	if sum2 < fee+2 {
+		return info, nil
+	}
+	amount2 := (sum2-fee)/3 + 1
+	pay2 := scriptOf(spk{Kind: "f_p2wpkh", Key: 4242}, keys)
+	args2 := []string{"-txfn", "out2.txt", "-useallinputs", "-send", addressOf(pay2, c.W.Testnet) + "=" + amountString(amount2, 0)}
+	if c.FeeFlag != "" {
+		args2 = append(args2, "-fee", c.FeeFlag)
+	}
+	before2 := fileSet(dir)
+	res2, err := runWallet(bin, dir, args2...)
+	if err != nil {
+		return info, err
+	}
+	if strings.Contains(res2.stderr, "panic:") {
+		return info, fmt.Errorf("second payment: the wallet crashed: %s", res2)
+	}
+	tx2, _, err := readTxFile(dir, before2, "out2.txt")
+	if err != nil {
+		return info, fmt.Errorf("second payment: %v: %s", err, res2)
+	}
+	if tx2 == nil {
+		return info, fmt.Errorf("second payment of %d from the updated balance folder (the wallet's outputs hold %d, fee %d) wrote no transaction: %s", amount2, sum2, fee, res2)
+	}
+	info.second = true
+	seen2 := map[outpoint]bool{}
+	spent2 := make([]wire.TxOut, len(tx2.In))
+	var in2 uint64
+	for i, in := range tx2.In {
+		op := outpoint{in.PrevHash, in.PrevIndex}
+		o, ok := avail[op]
+		if !ok {
+			return info, fmt.Errorf("second payment: input %d spends %x:%d which is neither an unspent listed output nor an own output of the first transaction (%s)", i, in.PrevHash, in.PrevIndex, describeTx(got))
+		}
+		if seen2[op] {
+			return info, fmt.Errorf("second payment: input %d spends %x:%d a second time", i, in.PrevHash, in.PrevIndex)
+		}
+		seen2[op] = true
+		spent2[i] = o
+		in2 += o.Value
+	}
+	for op := range sure2 {
+		if !seen2[op] {
+			return info, fmt.Errorf("second payment with -useallinputs does not spend the wallet's output %x:%d (first transaction: %s)", op.hash, op.n, describeTx(got))
+		}
+	}
+	if in2 < amount2+fee {
+		return info, fmt.Errorf("second payment: inputs hold %d, payment+fee are %d", in2, amount2+fee)
+	}
+	okPay, okChange := false, in2-amount2-fee == 0
+	for _, o := range tx2.Out {
+		switch {
+		case !okPay && o.Value == amount2 && bytes.Equal(o.PkScript, pay2):
+			okPay = true
+		case !okChange && o.Value == in2-amount2-fee && own[string(o.PkScript)]:
+			okChange = true
+		default:
+			return info, fmt.Errorf("second payment: unexpected output %d -> %x: %s", o.Value, o.PkScript, describeTx(tx2))
+		}
+	}
+	if !okPay || !okChange {
+		return info, fmt.Errorf("second payment: payment %d / change %d missing: %s", amount2, in2-amount2-fee, describeTx(tx2))
+	}
+	for i := range tx2.In {
+		if e := verifyInput(tx2, i, spent2); e != nil {
+			return info, fmt.Errorf("second payment: input %d: %v\n%s", i, e, describeTx(tx2))
+		}
+	}
 	return info, nil
 }
 
@@ -1398,6 +1502,7 @@ func genCase(t *rapid.T) txCase {
 	}
 	c.UseAll = rapid.IntRange(0, 5).Draw(t, "useall") == 0
 	c.NoApply = rapid.IntRange(0, 7).Draw(t, "noapply") == 0
+	c.Second = !c.NoApply && rapid.IntRange(0, 2).Draw(t, "second") != 0
 	if nSend > 0 && rapid.IntRange(0, 5).Draw(t, "sign") == 0 {
 		// -sign with -send: the message is signed first, then main() builds the wallet again for the transaction
 		// (main() goes on after signing only when -send is given; with -batch alone it stops after the signature)
@@ -1489,6 +1594,9 @@ func TestWalletTx(t *testing.T) {
 			default:
 				r.Class("msg_above_77_bytes")
 			}
+		}
+		if info.second {
+			r.Class("second_payment_from_updated_balance")
 		}
 		if info.msgSigned {
 			r.Class("opt_-sign_with_-send")
